@@ -197,6 +197,41 @@ def explore(ctx: Ctx):
                     ctx.violation('spec_violation', f"files of {name} differ between alone and together (order {list(o)}): {df}",
                                   {'surface': 'file', 'design': d, 'order': list(o), 'targeton': t, 'diff': df})
     ctx.sample({'design_targetons': designs[0]['targetons'], 'bg': designs[0].get('bg')})
+    # cDNA mode: both table sets are cleared per targeton; files are named by sequence id + hash of the row
+    cds = [gen.gen_cdna(rng, {}) for _ in range(ctx.n(30, 200))]
+    cds = [d for d in cds if len(d['targetons']) > 1]
+    cjobs, cidx = [], []
+    for i, d in enumerate(cds):
+        k = len(d['targetons'])
+        cjobs.append((d, tuple(range(k))))
+        cidx.append((i, None))
+        cjobs.append((d, tuple(reversed(range(k)))))
+        cidx.append((i, None))
+        for j in range(k):
+            cjobs.append((d, (j,)))
+            cidx.append((i, j))
+    cres = pool_map(run_case, cjobs, chunksize=2)
+    tog = {}
+    for (i, j), r in zip(cidx, cres):
+        if j is None:
+            tog.setdefault(i, []).append(r)
+    for (i, j), r in zip(cidx, cres):
+        if j is None:
+            continue
+        ctx.evaluations += 1
+        ctx.count('cdna_targetons')
+        for t in tog[i]:
+            if t['exit'] != 0 or r['exit'] != 0:
+                if t['exit'] == 0 and r['exit'] != 0:
+                    ctx.violation('spec_violation', f'cDNA targeton {j} refused alone but accepted together', {'surface': 'file', 'design': cds[i], 'order': [j]})
+                continue
+            same = {k: t['files'].get(k) for k in r['files']}
+            df = first_diff(r['files'], same if all(v is not None for v in same.values()) else {})
+            if r['files']:
+                ctx.nontriv(('cdna', i, j))
+            if df:
+                ctx.violation('spec_violation', f'cDNA targeton {j}: files differ between alone and together: {df}',
+                              {'surface': 'file', 'design': cds[i], 'order': list(range(len(cds[i]['targetons']))), 'cdna_index': j, 'diff': df})
     # frame of proc_targeton on the real database
     for d in designs[:ctx.n(25, 150)]:
         fr = run_framed(d)
@@ -244,6 +279,12 @@ def replay(ctx: Ctx, path: str) -> int:
     else:
         o = tuple(case.get('order') or range(len(d['targetons'])))
         r = run_case((d, o))
+        if d['mode'] == 'cdna':
+            for j in o:
+                a = run_case((d, (j,)))
+                if r['exit'] == 0 and (a['exit'] != 0 or any(r['files'].get(k) != x for k, x in a['files'].items())):
+                    bad = True
+            o = ()
         for j in o:
             a = run_case((d, (j,)))
             name = tname(d, d['targetons'][j])
